@@ -39,6 +39,7 @@ _Bool __modeb_fresh(void **pp, unsigned long n) { *pp = __CPROVER_allocate(n, 0)
 /* tag/flag part of validity: what every producer of a Value guarantees */
 #define VALID_TAG(v) (V_MAJOR(v) <= IMAGINARY && ((v)->_flags & ~(F_NOTNULL | F_LVALUE)) == 0 && \
                       IMPLIES(V_IS(v, NO_TYPE), V_ISNULL(v)) && \
+                      IMPLIES(V_MAJOR(v) != COMPLEX && V_MAJOR(v) != ROWTYPE, V_MINOR(v) == 0) && \
                       IMPLIES(V_IS(v, BOOLEAN) && !V_ISNULL(v), (((v)->_value.i) & 0xff) <= 1))
 
 /* Kleene abstraction of a value in the boolean domain */
